@@ -476,6 +476,80 @@ func TestC10(t *testing.T) {
 		}
 		gen.Class("leaf-lacking-an-sgx-member")
 	})
+	// inputs of a few megabytes made of very many small parts - thousands of TCB levels, tens of thousands of QE levels
+	// and CRL entries, thousands of certificates behind the chain - are answered (accepted or refused) within a minute
+	gen.Direct(t, "inputs-made-of-very-many-parts", func(t *testing.T) {
+		for i, kind := range []string{"tcb-levels", "qe-levels", "pck-crl-entries", "root-crl-entries", "certificates-behind-the-chain", "module-identities"} {
+			if !gen.ShardOwns(i) {
+				continue
+			}
+			s := gen.NewStream(gen.Seed()+uint64(i), "c10many")
+			w := gen.NewWorld(gen.NewPKI(gen.PKISpec{Seed: gen.PKISeeds[i%len(gen.PKISeeds)]}), s)
+			w.HonestCollateral()
+			n := 0
+			switch kind {
+			case "tcb-levels":
+				n = 4000
+				good := w.TcbInfo.Levels
+				var lv []gen.PlatformLevel
+				for k := 0; k < n; k++ {
+					l := gen.PlatformLevel{Status: "OutOfDate", PceSvn: 65535}
+					for c := range l.Sgx {
+						l.Sgx[c], l.Tdx[c] = 255, 255
+					}
+					l.Sgx[k%16] = byte(k / 16)
+					lv = append(lv, l)
+				}
+				w.TcbInfo.Levels = append(lv, good...)
+			case "qe-levels":
+				n = 40000
+				good := w.QeID.Levels
+				var lv []gen.QeLevel
+				for k := 0; k < n; k++ {
+					lv = append(lv, gen.QeLevel{Isvsvn: uint32(1000000 + n - k), Status: "OutOfDate"})
+				}
+				w.QeID.Levels = append(lv, good...)
+			case "pck-crl-entries", "root-crl-entries":
+				n = 60000
+				var rev [][]byte
+				for k := 0; k < n; k++ {
+					rev = append(rev, []byte{0x5a, byte(k >> 16), byte(k >> 8), byte(k), 0x01, 0x02, 0x03, 0x04, 0x05})
+				}
+				if kind == "pck-crl-entries" {
+					w.PckCrl.Revoked = rev
+				} else {
+					w.RootCrl.Revoked = rev
+				}
+			case "module-identities":
+				n = 3000
+				for k := 0; k < n; k++ {
+					w.TcbInfo.Identities = append(w.TcbInfo.Identities, gen.ModuleIdentity{ID: fmt.Sprintf("TDX_%04d", 100+k), Mrsigner: s.Bytes(48), Attributes: make([]byte, 8), Mask: bytes.Repeat([]byte{0xff}, 8), Levels: []gen.ModuleLevel{{Isvsvn: 1, Status: "UpToDate"}}})
+				}
+			case "certificates-behind-the-chain":
+				n = 1500
+				w.BuildLeaf()
+				chain := gen.ChainPEM(w.Leaf, w.PKI.Int, w.PKI.Root)
+				for k := 0; k < n; k++ {
+					chain = append(chain, gen.PKISeedRoot(k%4).PEM...)
+				}
+				w.ChainOverride = chain
+			}
+			w.Build()
+			for _, l := range []gen.Level{gen.LvlBase, gen.LvlCRL} {
+				o := w.Options(l, w.NewGetter(), nil)
+				gen.Eval()
+				t0 := time.Now()
+				v, hung := gen.CallWatch(60*time.Second, func() error { return verify.RawTdxQuote(w.Raw, o) })
+				if hung || v.Panicked() {
+					gen.Fail(t, gen.Violation{Key: "no-answer:very-many-parts:" + kind, Oracle: "every entry point returns a result or an error; none panics or hangs", Detail: fmt.Sprintf("%d %s, level %s: no answer within 60 s %s", n, kind, l, v.Panic), Replay: map[string]any{"kind": "c10-many-parts", "what": kind}})
+					return
+				}
+				gen.NonTrivial("c10many", kind, int(l))
+				gen.Sample("very-many-parts", map[string]any{"what": kind, "n": n, "level": l.String(), "verdict": v.Short(), "seconds": time.Since(t0).Seconds()})
+			}
+		}
+		gen.Class("inputs-made-of-very-many-parts")
+	})
 	gen.Direct(t, "message-structure", func(t *testing.T) {
 		// the valid message as the parser produces it for a quote without trailing bytes, with three trailing bytes, and
 		// with an empty-but-present trailing-bytes field (which only a hand-built or wire-decoded message has)
